@@ -5,3 +5,4 @@ import MpsProps.Src.SrcFrostKeygen
 import MpsProps.Src.SrcDoernerKeygen
 import MpsProps.Src.SrcLPkgMathPolynomial
 import MpsProps.Src.SrcLPkgParty
+import MpsProps.Src.SrcLInternalRound
